@@ -143,7 +143,19 @@ class Harness:
         self.in_prop = False
 
     # ---------------------------------------------------------------- parameters from the case
+    def shared(self, key, make):
+        """Argument arrays are created once per case and handed to every simulator built for it - as a user would do -
+        so that a constructor or a run that modifies its argument shows up in the configurations executed later."""
+        cache = self.built.__dict__.setdefault('arg_cache', {})
+        if key not in cache: cache[key] = make()
+        return cache[key]
+
     def delays_array(self):
+        d = self.case['delays']
+        key = ('delays', core.jdump(d), self.cfg.get('dataset_only'), bool(self.cfg.get('zero_fork_inputs')))
+        return self.shared(key, self._delays_array)
+
+    def _delays_array(self):
         d = self.case['delays']
         n_sets = max(1, int(d.get('n_sets', 1)))
         nl = len(self.circuit.lines)
@@ -164,6 +176,11 @@ class Harness:
 
     def caps(self):
         cp = self.cfg.get('caps', self.case.get('caps'))
+        v = self.shared(('caps', core.jdump(cp)), self._caps)
+        return v
+
+    def _caps(self):
+        cp = self.cfg.get('caps', self.case.get('caps'))
         nl = len(self.circuit.lines)
         if cp is None: return 16
         if cp.get('vec') is None: return int(cp.get('default', 16))
@@ -175,6 +192,10 @@ class Harness:
     def a_ctrl(self):
         ac = self.case.get('actrl')
         if not ac: return None
+        return self.shared(('actrl', core.jdump(ac)), self._a_ctrl)
+
+    def _a_ctrl(self):
+        ac = self.case.get('actrl')
         nl = len(self.circuit.lines)
         n = nl + 3 if ac.get('plus3', True) else nl
         arr = np.zeros((n, 3), dtype=np.int32)
